@@ -7,11 +7,11 @@ def S(xs):
     return '{' + ', '.join('"%s"' % x for x in xs) + '}'
 
 
-def core(name, acts, maxn, adds, stack=0, und=0, rst=0, perm=3, invariants=True, probe=0, minn=0, initlive=99, undone=False, reuse=0, **kw):
+def core(name, acts, maxn, adds, stack=0, und=0, rst=0, perm=3, invariants=True, probe=0, minn=0, initlive=99, undone=False, reuse=0, trackenc=False, **kw):
     st = {
         'kind': 'gen_replay', 'name': name, 'module': 'Core', 'fam': 'core', 'spec': 'Spec', 'view': 'View',
         'constants': {'MaxN': maxn, 'MaxAdds': adds, 'MaxStack': stack, 'MaxUnd': und, 'MaxRst': rst,
-                      'Acts': S(acts), 'MaxPerm': perm, 'MaxProbe': probe, 'MinN': minn, 'InitLive': initlive, 'TrackUndone': 'TRUE' if undone else 'FALSE', 'MaxReuse': reuse},
+                      'Acts': S(acts), 'MaxPerm': perm, 'MaxProbe': probe, 'MinN': minn, 'InitLive': initlive, 'TrackUndone': 'TRUE' if undone else 'FALSE', 'MaxReuse': reuse, 'TrackEnc': 'TRUE' if trackenc else 'FALSE'},
         'invariants': ['TypeOK', 'RootCountOK', 'NodesOK', 'LabOK'] if invariants else ['TypeOK', 'LabOK'],
     }
     st.update(kw)
@@ -828,3 +828,21 @@ PLAN['C07']['stages'] = lambda tier, seed: _c07w(tier, seed) + light_wide(tier, 
 PLAN['C07']['rule'] += WIDE_LIGHT_RULE % ('2 (thorough: 5)', '')
 PLAN['C07']['bounds'] = {'quick': PLAN['C07']['bounds']['quick'] + '; wide: n in 14..15, adds 0..2, held<=2',
                          'thorough': PLAN['C07']['bounds']['thorough'] + '; wide: n in 11..15, adds 0..5, held<=2 (and one dead leaf, n in 13..15, held<=1)'}
+
+
+# --------------------------------------------------------------------------- undo with the block's own (non-canonical) proof
+# Breadth-first search continues one witness per abstract state, so an Undo only ever followed the first encoding found.
+# With TrackEnc the encoding of the last block is part of the state: every accepted encoding of every block is followed
+# by its Undo, and the harness undoes a block with the very proof it was applied with.
+def encundo(tier):
+    q = tier == 'quick'
+    return core('core_enc_then_undo', ['mod', 'enc', 'undo'], 3 if q else 4, 2, stack=1, und=1, undone=True, trackenc=True,
+                invariants=False, timeout=900 if q else 7200)
+
+
+ENCUNDO_RULE = (' Stage core_enc_then_undo: with TrackEnc the encoding of the last block is part of the state, so every accepted encoding '
+                '(permuted targets, unused trailing hashes, proofs assembled by AddProof / cut by GetProofSubset) of every block is followed by '
+                'Undo, called with the very proof the block was applied with, and by every further block.')
+for _p in ('C05', 'C06'):
+    PLAN[_p]['stages'] = (lambda f: (lambda tier, seed: f(tier, seed) + [encundo(tier)]))(PLAN[_p]['stages'])
+    PLAN[_p]['rule'] += ENCUNDO_RULE
